@@ -470,6 +470,23 @@ class C17(Property):
             for side in SIDES:
                 yield {'t': 'oto', 'ops': [['new', 'list', [[1, 2], [2, 3]], []], ['uniq', 'reg', [0, side], kw],
                                            ['set', 1, 'i', 3, 1], ['del', 0, side, 2]]}
+        # round 3: one-shot iterators held by the caller - passed whole, after the caller took items off, passed a
+        # second time (nothing left), to update / |= / the constructors, through either side
+        for side in SIDES:
+            for taken in (0, 1, 2, 4):
+                for first in (['upd', 0, side, 'it', 0, []], ['upd', 0, side, 'it', 0, [[1, 9]]], ['ior', 0, side, 'it', 0],
+                              ['new', 'it', 0, []], ['uniq', 'it', 0, [[4, 3]]]):
+                    for again in (['upd', 0, 'f', 'it', 0, []], ['new', 'it', 0, [[2, 2]]], ['ior', 0, 'i', 'it', 0]):
+                        yield {'t': 'oto', 'ops': [['new', 'dict', [[1, 3], [5, 2]], []], ['mkiter', [[1, 2], [2, 3], [4, 3]]]]
+                               + [['next', 0]] * taken + [first, again, ['set', 0, side, 3, 1]]}
+        yield {'t': 'oto', 'ops': [['new', 'none', [], []], ['mkiter', [[1, 2], [3, 2]]], ['mkiter', [[5, 6]]],
+                                   ['uniq', 'it', 0, []], ['upd', 0, 'f', 'it', 1, []], ['upd', 0, 'i', 'it', 0, []],
+                                   ['ior', 1, 'f', 'it', 1]]}
+        # dict / OrderedDict arguments written with a key twice: the callee sees the key once (first position, last value)
+        for kind in ('dict', 'odict', 'list', 'iter'):
+            for o in ('upd', 'ior'):
+                yield {'t': 'oto', 'ops': [['new', 'none', [], []], [o, 0, 'f', kind, [[1, 5], [2, 6], [1, 6]]] + ([[]] if o == 'upd' else [])]}
+                yield {'t': 'oto', 'ops': [['new', 'dict', [[3, 6]], []], [o, 0, 'i', kind, [[6, 1], [5, 2], [6, 2]]] + ([[]] if o == 'upd' else [])]}
         # a long-held `.inv`: every way of emptying / refilling, then mutate through the reference taken at creation
         for emptier in (['clear', 0, 'f'], ['clear', 0, 'i'], ['popitem', 0, 'f'], ['pop', 0, 'i', 3, None], ['del', 0, 'f', 1]):
             for filler in (['set', 0, 'i', 2, 4], ['upd', 0, 'f', 'dict', [[4, 2]], []], ['ior', 0, 'i', 'iter', [[2, 4]]], ['sd', 0, 'i', 2, 4]):
@@ -612,10 +629,31 @@ class C17(Property):
         kinds = ['dict', 'list', 'iter', 'odict']
         ops = [['new', rng.choice(['none'] + kinds), self.rpairs(rng, ids), self.rkw(rng, ids)]]
         nregs = 1
+        nits = 0          # one-shot iterators the caller holds on to (created, partly consumed, passed, passed again)
+        use_its = rng.random() < 0.35
         for _ in range(nops):
             r, s = rng.randrange(nregs), rng.choice(SIDES)
             x = rng.random()
             k, v = rng.choice(ids), rng.choice(ids)
+            if use_its:
+                y = rng.random()
+                if y < 0.08 and nits < 4:
+                    ops.append(['mkiter', self.rpairs(rng, ids, 0, 5)])
+                    nits += 1
+                    continue
+                if nits and y < 0.12:
+                    ops.append(['next', rng.randrange(nits)])
+                    continue
+                if nits and y < 0.3:
+                    it, z = rng.randrange(nits), rng.random()
+                    if z < 0.5:
+                        ops.append(['upd', r, s, 'it', it, self.rkw(rng, ids)])
+                    elif z < 0.75:
+                        ops.append(['ior', r, s, 'it', it])
+                    elif nregs < 4:
+                        ops.append([rng.choice(['new', 'uniq']), 'it', it, self.rkw(rng, ids)])
+                        nregs += 1
+                    continue
             if x < 0.25:
                 ops.append(['set', r, s, k, v])
             elif x < 0.33:
@@ -770,6 +808,21 @@ class C17(Property):
     def _fps(self, ps):
         return ','.join('%d:%s' % (k, self._fv(v)) for k, v in ps) or '-'
 
+    def _argtok(self, kind, payload):
+        if kind == 'none':
+            return 'n'
+        if kind in ('dict', 'odict'):
+            return 'd' + self._ps(payload)
+        if kind == 'list':
+            return 'p' + self._ps(payload)
+        if kind == 'iter':
+            return 'j' + self._ps(payload)
+        if kind == 'it':
+            return 'i%d' % payload
+        if kind == 'reg':
+            return 'r%d.%s' % (payload[0], payload[1])
+        raise ValueError(kind)
+
     def _flat(self, kind, ps, kw=()):
         """pairs an argument of this kind delivers (a dict argument cannot hold a key twice)"""
         ps = self.dedup_keys(ps) if kind in ('dict', 'odict') else [list(p) for p in ps]
@@ -795,10 +848,13 @@ class C17(Property):
                         # OneToOne(other, **kw) with colliding values: WHICH key of a value survives depends on
                         # the iteration order of `other`, which the statement leaves open -> oracle only
                         return None
-                    if op[1] == 'reg':
-                        toks.append('%sR/%d/%s/%s' % (c, op[2][0], op[2][1], self._ps(op[3])))
-                    else:
-                        toks.append('%s/%s' % (c, self._ps(self._flat(op[1], op[2] if op[1] != 'none' else [], op[3]))))
+                    # the argument travels RAW (kind + pairs as written): de-duplication of dict / keyword
+                    # arguments and the one pass over an iterator are the model's business (Args.lean)
+                    toks.append('%s/%s/%s' % (c, self._argtok(op[1], op[2]), self._ps(op[3])))
+                elif o == 'mkiter':
+                    toks.append('MI/' + self._ps(op[1]))
+                elif o == 'next':
+                    toks.append('NX/%d' % op[1])
                 elif o == 'copy':
                     toks.append('C/%d/%s' % (op[1], op[2]))
                 elif o == 'set':
@@ -807,10 +863,7 @@ class C17(Property):
                     toks.append('D/%d/%s/%d' % tuple(op[1:]))
                 elif o in ('upd', 'ior'):
                     kw = op[5] if o == 'upd' else []
-                    if op[3] == 'reg':
-                        toks.append('UR/%d/%s/%d/%s/%s' % (op[1], op[2], op[4][0], op[4][1], self._ps(kw)))
-                    else:
-                        toks.append('U/%d/%s/%s' % (op[1], op[2], self._ps(self._flat(op[3], op[4], kw))))
+                    toks.append('U/%d/%s/%s/%s' % (op[1], op[2], self._argtok(op[3], op[4]), self._ps(kw)))
                 elif o == 'sd':
                     toks.append('F/%d/%s/%d/%d' % (op[1], op[2], op[3], 0 if op[4] is None else op[4]))
                 elif o == 'pop':
@@ -912,13 +965,18 @@ class C17(Property):
     def impl_oto(self, case):
         from boltons.dictutils import OneToOne
         regs, out = [], []
+        its = []      # one-shot iterators the "caller" holds on to
 
         def held(x):
             return [x, x.inv]
         for n, op in enumerate(case['ops']):
             o, rec = op[0], {'ret': '-'}
             try:
-                if o in ('new', 'uniq'):
+                if o == 'mkiter':
+                    its.append(one_shot(mkpairs(op[1], n)))
+                elif o == 'next':
+                    next(its[op[1]], None)
+                elif o in ('new', 'uniq'):
                     ctor = OneToOne if o == 'new' else OneToOne.unique
                     kw = {mk(k): mk(v, n) for k, v in op[3]}
                     new = None
@@ -927,6 +985,8 @@ class C17(Property):
                             new = ctor(**kw)
                         elif op[1] == 'reg':
                             new = ctor(self._side(regs[op[2][0]], op[2][1]), **kw)
+                        elif op[1] == 'it':
+                            new = ctor(its[op[2]], **kw)
                         else:
                             new = ctor(self._arg(op[1], op[2], n), **kw)
                     finally:
@@ -940,7 +1000,8 @@ class C17(Property):
                     elif o == 'del':
                         del x[mk(op[3], n)]
                     elif o in ('upd', 'ior'):
-                        src = self._side(regs[op[4][0]], op[4][1]) if op[3] == 'reg' else self._arg(op[3], op[4], n)
+                        src = (self._side(regs[op[4][0]], op[4][1]) if op[3] == 'reg' else
+                               its[op[4]] if op[3] == 'it' else self._arg(op[3], op[4], n))
                         if o == 'upd':
                             x.update(src, **{mk(k): mk(v, n) for k, v in op[5]})
                         else:
@@ -1351,6 +1412,7 @@ class C17(Property):
 
     def oracle_oto(self, case, obs):
         refs = []      # per instance: set of (k, v), as seen from the forward side
+        iters = []     # per held one-shot iterator: the pairs it still has to yield
         for n, op in enumerate(case['ops']):
             if n >= len(obs):
                 return Failure('missing', 'no observation for %r' % (op,))
@@ -1359,7 +1421,20 @@ class C17(Property):
             exp_ret = '-'
             tgt = None
             loose_ctor = None
-            if o in ('new', 'uniq'):
+            # a held iterator hands what it has left to the ONE pass the callee makes, and is empty afterwards
+            if o in ('new', 'uniq') and op[1] == 'it':
+                left, iters[op[2]] = iters[op[2]], []
+                op = [o, 'list', left, op[3]]
+                self._nt = True
+            elif o in ('upd', 'ior') and op[3] == 'it':
+                left, iters[op[4]] = iters[op[4]], []
+                op = op[:3] + ['list', left] + op[5:]
+                self._nt = True
+            if o == 'mkiter':
+                iters.append([list(pr) for pr in op[1]])
+            elif o == 'next':
+                iters[op[1]] = iters[op[1]][1:]
+            elif o in ('new', 'uniq'):
                 if op[1] == 'reg':
                     src = refs[op[2][0]]
                     d = dict(src if op[2][1] == 'f' else {(b, a) for a, b in src})
@@ -1698,6 +1773,8 @@ class C17(Property):
         first = 0 if case['t'] == 'fd' else 1
         nregs_ops = ('new', 'uniq', 'copy')
         for i in range(len(ops) - 1, first - 1, -1):
+            if ops[i][0] == 'mkiter':
+                continue      # later commands name iterators by position
             if case['t'] != 'fd' and ops[i][0] in nregs_ops:
                 # dropping a constructor renumbers later registers: only drop it when nothing after refers to it
                 idx = sum(1 for o in ops[:i] if o[0] in nregs_ops)
@@ -1720,6 +1797,8 @@ class C17(Property):
 
     @staticmethod
     def _refs(op, idx):
+        if op[0] in ('mkiter', 'next'):
+            return False
         if op[0] in ('new', 'uniq'):
             return op[1] == 'reg' and op[2][0] >= idx and op[2][0] == idx
         if op[0] == 'copy':
@@ -1731,6 +1810,8 @@ class C17(Property):
     @staticmethod
     def _renum(op, idx):
         op = [list(a) if isinstance(a, list) else a for a in op]
+        if op[0] in ('mkiter', 'next'):
+            return op
         if op[0] in ('new', 'uniq'):
             if op[1] == 'reg' and op[2][0] > idx:
                 op[2][0] -= 1
